@@ -23,7 +23,7 @@ import (
 // correctly (real net/http server over the simulated transport).
 
 func init() {
-	register(&Prop{ID: "C11", Run: runC11, Enum: enumC11, Quick: 5000, Thorough: 20000, Level: "exploration",
+	register(&Prop{ID: "C11", Run: runC11, Enum: enumC11, Quick: 5000, Thorough: 300000, Level: "exploration",
 		Exhaustive: "request grammar: method x HTTP version x Connection variants x Upgrade variants x Sec-WebSocket-Version variants x key variants (thorough); covering sample (quick)"})
 }
 
